@@ -198,7 +198,7 @@ type Frame struct {
 	loopEntry map[int]*loopSnap
 	inDefers  bool
 	autoCut   map[int]bool // loop headers cut without a contract (trivial invariant)
-	loopPC    map[int]int  // path-condition length at the first visit of an uncontracted loop header
+	symExit   map[int]bool // uncontracted loop headers one of whose exit tests was symbolic
 }
 
 type loopSnap struct {
@@ -258,10 +258,10 @@ func (st *State) clone() *State {
 		for k, v := range f.loopEntry {
 			nf.loopEntry[k] = v
 		}
-		if f.loopPC != nil {
-			nf.loopPC = map[int]int{}
-			for k, v := range f.loopPC {
-				nf.loopPC[k] = v
+		if f.symExit != nil {
+			nf.symExit = map[int]bool{}
+			for k, v := range f.symExit {
+				nf.symExit[k] = v
 			}
 		}
 		if f.autoCut != nil {
